@@ -180,6 +180,19 @@ macro_rules! rowm { ($rows:ident, $name:expr, $e:expr) => { $rows.push(($name.to
 // ------------------------------------------------------------------ patterns for the scanner group
 
 const PATS: [&str; 5] = ["4D 5A", "00 00 00 00", "? ? 00 '", "e8 ${'}", "48 8B ? ? [1-4] 'c3"];
+/// The pattern of a scanner query: the parsed strings above, and two hand-built ones with atoms that READ the save
+/// array (Check / Pir; the parser never emits them).  `00 ' <rel8> Check(1)` matches `00 FF` only (the jump must land on
+/// the bookmark), but every `00 xx` passes when the save array has no slot 1 - which is how the format-specific
+/// `finds` probes for a second match; a wrapper that probes differently answers differently.
+fn scan_pat(k: u64) -> Vec<pelite::pattern::Atom> {
+	use pelite::pattern::Atom::*;
+	match k % 8 {
+		5 => vec![Save(0), Byte(0x00), Save(1), Jump1, Check(1)],
+		6 => vec![Save(0), Byte(0xFF), Save(1), Jump1, Check(1)],
+		7 => vec![Save(0), Byte(0x00), Save(1), Skip(1), Back(1), Check(1), Byte(0x00)],
+		j => pelite::pattern::parse(PATS[j as usize % PATS.len()]).unwrap(),
+	}
+}
 
 // ------------------------------------------------------------------ the walk: identical source text for the wrapper and for pe32 / pe64
 
@@ -238,7 +251,7 @@ macro_rules! walk {
 						guard(|| by.import(pe32::imports::Import::ByOrdinal { ord: k as u16 }).canon())]))
 				},
 				"scan" => {
-					let pat = pelite::pattern::parse(PATS[n(1) as usize % PATS.len()]).unwrap();
+					let pat = scan_pat(n(1));
 					let range = n(2) as u32..n(3) as u32;
 					row!(rows, q, {
 						let sc = pe.scanner();
@@ -252,7 +265,7 @@ macro_rules! walk {
 					})
 				},
 				"scanc" => {
-					let pat = pelite::pattern::parse(PATS[n(1) as usize % PATS.len()]).unwrap();
+					let pat = scan_pat(n(1));
 					row!(rows, q, {
 						let sc = pe.scanner();
 						let mut save = [0u32; 4];
@@ -266,7 +279,7 @@ macro_rules! walk {
 					})
 				},
 				"exec" => {
-					let pat = pelite::pattern::parse(PATS[n(1) as usize % PATS.len()]).unwrap();
+					let pat = scan_pat(n(1));
 					row!(rows, q, { let mut save = [0u32; 4]; let r = pe.scanner().exec(n(2) as u32, &pat, &mut save); format!("{};{:?}", r, save) })
 				},
 				_ => rows.push((q.to_string(), "?".to_string())),
@@ -509,9 +522,9 @@ fn gen_queries(rng: &mut Rng, edges: &[u64], nsec: usize, names: &[&[u8]], nq: u
 			13 => qs.push(format!("name:{}", name)),
 			14 => qs.push(format!("imp:{}:{}:{}", if rng.chance(1, 3) { 0xFFFF_FFFFu64 } else { rng.below(24) }, hex(&[*rng.pick(names), &b"\0"[..]].concat()), rng.below(24))),
 			15 | 16 => qs.push(format!("by:{}:{}", k, name)),
-			17 | 18 => { let b = addr(rng); qs.push(format!("scan:{}:{}:{}", rng.below(5), a.min(b), a.max(b))) },
-			19 => qs.push(format!("scanc:{}:{}", rng.below(5), a)),
-			_ => qs.push(format!("exec:{}:{}", rng.below(5), a)),
+			17 | 18 => { let b = addr(rng); qs.push(format!("scan:{}:{}:{}", rng.below(8), a.min(b), a.max(b))) },
+			19 => qs.push(format!("scanc:{}:{}", rng.below(8), a)),
+			_ => qs.push(format!("exec:{}:{}", rng.below(8), a)),
 		}
 	}
 	qs
